@@ -60,6 +60,15 @@ fn attempt(c: &LocCase, main_source: &str) -> Result<Option<(Vec<Loc>, Option<St
         env.set_debug(c.debug);
         env.set_undefined_behavior(crate::props::c01::behavior(c.undefined));
         env.set_fuel(Some(50_000));
+        // templates named *.custom use an escape format the default formatter cannot write:
+        // printing any value that is not marked safe is a located error there
+        env.set_auto_escape_callback(|name| {
+            if name.ends_with(".custom") {
+                minijinja::AutoEscape::Custom("custom7777")
+            } else {
+                minijinja::default_auto_escape_callback(name)
+            }
+        });
         // a function of the unpadded case: small limits make recursion fail at instructions other
         // than the include itself
         match c.source.len() % 5 {
@@ -466,7 +475,7 @@ impl Part for Located {
 pub struct Planted;
 
 /// every construct with a hole for the failing expression `{{ (7777 // 0) }}`
-fn planted_sources() -> Vec<(String, String)> {
+fn planted_sources() -> Vec<(String, String, &'static str)> {
     let plant = "(7777 // 0)";
     let holes = [
         "{{ @ }}",
@@ -521,6 +530,21 @@ fn planted_sources() -> Vec<(String, String)> {
         // an invalid escape sequence in a string that is not on the first line of its expression
         ("{{ dict(k=\n\n   \"bad7777 \\x escape\") }}", "bad7777"),
     ];
+    // prints that fail because of the escape mode of the template: a value JSON cannot carry in a
+    // *.json template, any unsafe value in a template with a custom escape format
+    let mode_stmts: [(&str, &str, &'static str); 6] = [
+        ("{{ {(7777, 2): 3} }}", "7777", "main.json"),
+        ("{% macro pj() %}\n{{ {(7777, 2): 3} }}\n{% endmacro %}\n\n{{ pj() }}", "7777", "main.json"),
+        ("{% for q in [1] %}\n{{ {(7777, q): 3} }}{% endfor %}", "7777", "main.json"),
+        ("{{ 'x7777' }}", "x7777", "main.custom"),
+        ("{% macro pc() %}\n\n{{ 'x7777' }}{% endmacro %}\n{{ pc()|safe }}", "x7777", "main.custom"),
+        ("{% autoescape 'json' %}\n{{ {(7777, 2): 3} }}\n{% endautoescape %}", "7777", "main.txt"),
+    ];
+    for (stmt, marker, name) in mode_stmts {
+        for (pre, post) in [("", "\nnext"), ("line1\n\n", "\n\n{{ 1 }}"), ("{% if true %}\n", "\n{{ 2 }}\n{% endif %}\n")] {
+            out.push((format!("{pre}{stmt}{post}"), marker.to_string(), name));
+        }
+    }
     for (stmt, marker) in stmts {
         for (pre, post) in [
             ("", "\nnext {{ i }}\n{{ s }}"),
@@ -529,13 +553,13 @@ fn planted_sources() -> Vec<(String, String)> {
             ("{% for q in l %}\n", "\n\n{{ q }}{% endfor %}"),
             ("\u{e9}\u{1f600}\r\n", "\r\n{{ i }}\r\n"),
         ] {
-            out.push((format!("{pre}{stmt}{post}"), marker.to_string()));
+            out.push((format!("{pre}{stmt}{post}"), marker.to_string(), "main.txt"));
         }
     }
     for h in holes {
         for (pre, post) in [("", ""), ("line1\nline2 ", " tail\nend"), ("\u{e9}\u{1f600}\n\n\n", "\n"), ("{# c\nc #}\r\n", "")] {
             let head = "{% macro mac(a) %}[{{ a }}]{% endmacro %}{% macro wrap(n) %}{% for z in range(n) %}{{ caller(z) }}{% endfor %}{% endmacro %}";
-            out.push((format!("{head}{pre}{}{post}", h.replace('@', plant)), plant.to_string()));
+            out.push((format!("{head}{pre}{}{post}", h.replace('@', plant)), plant.to_string(), "main.txt"));
         }
     }
     out
@@ -549,7 +573,7 @@ impl Part for Planted {
         let all = planted_sources();
         (0..all.len(), crate::runner::one_of(&[0u32, 1, 7, 255, 60_000]), crate::runner::one_of(&[0u32, 3, 70_000]), any::<bool>())
             .prop_map(move |(i, pad_lines, pad_cols, debug)| LocCase {
-                main_name: "main.txt".into(),
+                main_name: all[i].2.into(),
                 source: all[i].0.clone(),
                 companions: companions(),
                 pad_lines,
@@ -563,11 +587,11 @@ impl Part for Planted {
 
     fn enumeration(_tier: Tier) -> Vec<LocCase> {
         let mut out = vec![];
-        for (src, plant) in planted_sources() {
+        for (src, plant, name) in planted_sources() {
             for pad_lines in [0u32, 1, 7, 255, 60_000] {
                 for pad_cols in [0u32, 3, 70_000] {
                     out.push(LocCase {
-                        main_name: "main.txt".into(),
+                        main_name: name.into(),
                         source: src.clone(),
                         companions: companions(),
                         pad_lines,
@@ -599,7 +623,7 @@ impl Part for Planted {
 crate::declare_parts!(Located, Planted);
 
 pub fn run(ctx: &mut Ctx) {
-    ctx.rule = "failing templates: structured multi-line programs (macros, call blocks, blocks, inheritance, includes of failing templates, imports, loops, captures) with failing pieces, their character-level mutations (delete / insert delimiter, quote, multi-byte character, newline / truncate anywhere) and mutated free-mode templates, with CRLF and multi-byte text; for every error of the cause chain that names a template: 1 <= line <= lines of that source, range is a valid slice (in bounds, char boundaries, start <= end) lying on the reported line, template_source() is that source; metamorphic: N in {1,2,7,255,60000,65530,65534} lines of text above shift line by exactly N and the range by the pad length, M in {1,3,200,65530,70000} characters in front move only the range, kind/detail/name unchanged; all Display/Debug/display_debug_info forms complete without panic, debug on and off, also when written into a writer that fails after 0/1/7/60/300 bytes; the returned error names a template. planted: a division by zero planted in every construct (29 expression holes x 4 surroundings and 16 failing statements (incl. failing calls of call blocks with multi-line bodies and a bad escape sequence on a later line of its expression) x 5 surroundings, each x 5 x 3 offsets, enumerated) must be reported on its own line. Non-trivial: error not at line 1 offset 0 and (padding or multi-byte text or a cause chain). Distinct by case.".into();
+    ctx.rule = "failing templates: structured multi-line programs (macros, call blocks, blocks, inheritance, includes of failing templates, imports, loops, captures) with failing pieces, their character-level mutations (delete / insert delimiter, quote, multi-byte character, newline / truncate anywhere) and mutated free-mode templates, with CRLF and multi-byte text; for every error of the cause chain that names a template: 1 <= line <= lines of that source, range is a valid slice (in bounds, char boundaries, start <= end) lying on the reported line, template_source() is that source; metamorphic: N in {1,2,7,255,60000,65530,65534} lines of text above shift line by exactly N and the range by the pad length, M in {1,3,200,65530,70000} characters in front move only the range, kind/detail/name unchanged; all Display/Debug/display_debug_info forms complete without panic, debug on and off, also when written into a writer that fails after 0/1/7/60/300 bytes; the returned error names a template. planted: a division by zero planted in every construct (29 expression holes x 4 surroundings and 16 failing statements (incl. failing calls of call blocks with multi-line bodies and a bad escape sequence on a later line of its expression) x 5 surroundings, and 6 prints that fail because of the template's escape mode (a value JSON cannot carry in a .json template or an autoescape 'json' block, an unsafe value under a custom escape format; at top level, in macros, in loops) x 3 surroundings, each x 5 x 3 offsets, enumerated) must be reported on its own line. Non-trivial: error not at line 1 offset 0 and (padding or multi-byte text or a cause chain). Distinct by case.".into();
     ctx.assumptions = vec!["lines are counted as split('\\n') so that an error after a trailing newline is inside the source".into()];
     preamble(ctx);
     let t = ctx.tier;
